@@ -1,4 +1,4 @@
-module spike7
+module spike8
 
 go 1.23
 
